@@ -29,6 +29,7 @@ structure Async (sk : Skeleton) : Prop where
   publishGo : sk.respPublishAsync = true
   reqOnlyRead : sk.reqLoopBlocksOnlyOnRead = true
   resOnlyRead : sk.respLoopBlocksOnlyOnRead = true
+  wrappers : sk.ioWrappersNonBlocking = true    -- the write wrapper never waits (no window on requests in flight)
 
 /-- partition of the actions, used only to split the preservation proofs into smaller lemmas -/
 def Act.group : Act → Nat
